@@ -31,7 +31,7 @@ def corpus():
 def generate(rng, tier):
     n = 250 if tier == "quick" else 4000
     for _ in range(n):
-        nd = rng.choice([2, 2, 3, 3, 4])
+        nd = rng.choice([2, 2, 3, 3, 4, 4])
         names = ["RA", "DEC"] + {2: [], 3: [rng.choice(["WAVE", "TIME"])], 4: ["WAVE", "TIME"]}[nd]
         # keep the celestial pair adjacent, in this order, anywhere among the pixel axes
         others = names[2:]
@@ -46,7 +46,7 @@ def generate(rng, tier):
         shift = [rng.choice([0, 0, 1, -1, 2, -2, rng.choice([6, -6])]) for _ in range(nd)] if kind == "shift" else [0] * nd
         yield {"order": order, "shape": shape, "kind": kind, "algo": algo, "shift": shift, "crpix_seed": rng.randrange(1000),
                "as": rng.choice(["wcs", "wcs", "lowlevel", "header"]),
-               "shape_out": rng.choice(["explicit", "explicit", "target", "missing", "other"]),
+               "shape_out": rng.choice(["explicit", "target", "target", "missing", "other"]),
                "footprint": rng.random() < 0.5}
 
 
